@@ -1,10 +1,12 @@
-//! Target of the rewrite of `EntryStorage.value: UnsafeCell<T>` (entry.rs): the same std
+//! Target of the rewrite of `EntryStorage.value: UnsafeCell<T>` (entry.rs) and of
+//! `OnceInitCell.data: UnsafeCell<State<U, T>>` (cell.rs): the same std
 //! `UnsafeCell<T>` plus a zero-sized `loom::cell::UnsafeCell<()>` marker that makes every access to
 //! the value an (instantaneous) read or write event for loom's happens-before check.  A read that is
 //! not ordered after the last write, or a write that is not ordered after every earlier read / write,
 //! ends the execution with loom's "Causality violation: Concurrent … accesses" (class `data-race`).
-//! Neither event is a scheduling point.  build.rs classifies the accesses syntactically:
-//! `&mut *<e>.value.get()` -> `get_w()`, every other `<e>.value.get()` -> `get_r()`;
+//! Neither event is a scheduling point.  build.rs classifies the accesses syntactically (rules at
+//! `Rw::visit_expr_mut`): `&mut <place through *x.f.get()>`, `let p: *mut _ = x.f.get()` and unclassified
+//! forms inside a once-cell initialiser closure -> `get_w()`, everything else -> `get_r()`;
 //! `new`, `into_inner`, `get_mut(&mut self)` are exclusive-ownership operations and stay untracked.
 //! The marker comes first and `value` last so that `EntryStorage<T>` still unsizes to
 //! `EntryStorage<dyn Any + Send + Sync>`; the value's bytes are what `swap_any` swaps, the marker
